@@ -64,6 +64,22 @@ type vf27Run struct {
 	Units  []vf27Unit `json:"units"`
 
 	Ends map[int]int64 `json:"-"` // optional: instant at which each track's last sample ends
+
+	Layout string `json:"-"` // optional: file-name part of the record path (default vf27LayoutChrono)
+}
+
+// file-name layouts of the record path (after "%path/")
+const (
+	vf27LayoutChrono    = "%Y-%m-%d_%H-%M-%S-%f"
+	vf27LayoutDayFirst  = "%d-%m-%Y_%H-%M-%S-%f"
+	vf27LayoutTimeFirst = "%H-%M-%S-%f_%Y-%m-%d"
+)
+
+func vf27LayoutOr(l string) string {
+	if l == "" {
+		return vf27LayoutChrono
+	}
+	return l
 }
 
 var vf27Base = time.Date(2031, 3, 4, 10, 0, 0, 0, time.Local)
@@ -160,7 +176,7 @@ func vf27RecordEx(t testing.TB, dir string, pathName string, run vf27Run) ([]str
 	var created []string
 	completed := map[string]int64{}
 	rec := &recorder.Recorder{
-		PathFormat:      filepath.Join(dir, "%path/%Y-%m-%d_%H-%M-%S-%f"),
+		PathFormat:      filepath.Join(dir, "%path/"+vf27LayoutOr(run.Layout)),
 		Format:          conf.RecordFormatFMP4,
 		PartDuration:    time.Duration(run.PartMs) * time.Millisecond,
 		MaxPartSize:     50 * 1024 * 1024,
@@ -509,6 +525,7 @@ type vf27Req struct {
 	Direct string   `json:"direct"` // file to feed to segmentFMP4ReadHeader / ...ReadDurationFromParts
 	URLs   []string `json:"urls"`   // paths+queries for the playback server
 	API    []string `json:"api"`    // unused by the playback child
+	Layout string   `json:"layout"` // file-name part of the record path ("" = chronological default)
 }
 
 type vf27HTTP struct {
@@ -589,7 +606,7 @@ func TestVerif_C27_Child(t *testing.T) {
 			if rq.Dir != "" {
 				s.ReloadPathConfs(map[string]*conf.Path{"cam": {
 					Name:         "cam",
-					RecordPath:   filepath.Join(rq.Dir, "%path/%Y-%m-%d_%H-%M-%S-%f"),
+					RecordPath:   filepath.Join(rq.Dir, "%path/"+vf27LayoutOr(rq.Layout)),
 					RecordFormat: conf.RecordFormatFMP4,
 				}})
 			}
@@ -744,6 +761,11 @@ type vf27Seg struct {
 }
 
 func vf27LoadSeg(t testing.TB, fpath string) *vf27Seg {
+	return vf27LoadSegL(t, fpath, "")
+}
+
+// vf27LoadSegL: as vf27LoadSeg for a file recorded with the given file-name layout.
+func vf27LoadSegL(t testing.TB, fpath string, layout string) *vf27Seg {
 	b, err := os.ReadFile(fpath)
 	if err != nil {
 		t.Fatal(err)
@@ -814,7 +836,7 @@ func vf27LoadSeg(t testing.TB, fpath string) *vf27Seg {
 	sg.Number = mtxi.SegmentNumber
 	sg.DTSMs = mtxi.DTS / int64(time.Millisecond)
 	var pa recordstore.Path
-	if !pa.Decode(filepath.Join(filepath.Dir(filepath.Dir(fpath)), "%path/%Y-%m-%d_%H-%M-%S-%f.mp4"), fpath) {
+	if !pa.Decode(filepath.Join(filepath.Dir(filepath.Dir(fpath)), "%path/"+vf27LayoutOr(layout)+".mp4"), fpath) {
 		t.Fatalf("cannot decode the name of %s", fpath)
 	}
 	sg.StartMs = pa.Start.Sub(vf27Base).Milliseconds()
